@@ -54,7 +54,8 @@ class HarnessError(Exception):
 
 
 # ---------------------------------------------------------------------------------------------------
-def snapshot(tree, strict):
+def snapshot(tree):
+    """strict per-node records (one pass); lax(records) applies the normalisation of the contract."""
     recs = []
     listing = nodes(tree)
     pos = {}
@@ -63,26 +64,31 @@ def snapshot(tree, strict):
     for n, holder, k, i in listing:
         args = []
         for ak, av in n.args.items():
-            if not strict and (av is None or (type(av) is list and not av)):
-                continue
             if isinstance(av, Expr):
                 args.append((ak, "E"))
             elif type(av) is list:
                 args.append((ak, "L", tuple("E" if isinstance(x, Expr) else _scalar(x) for x in av)))
             else:
                 args.append((ak, "S", _scalar(av)))
-        ty = n.type if isinstance(n, Expression) else None
+        try:
+            ty = n.type  # the public property (for a cast: its target type when not annotated)
+        except Exception as e:  # e.g. a Cast without its required `to`
+            ty = ("type-raises", type(e).__name__)
         if ty is n:
             ty = None
-        if strict:
-            ty = n._type
-        tyfp = None
-        if ty is not None:
-            tyfp = _struct(ty, ids=False, root_parent=False) if isinstance(ty, Expr) else ("non-expr", repr(ty))
-        comments = tuple(n.comments) if n.comments else (None if not strict or n.comments is None else ())
-        meta = n._meta if (strict or n._meta) else None
-        recs.append((type(n).__name__, tuple(args), tyfp, comments, repr(meta) if meta is not None else None, (holder is not None and pos[id(holder)], k, i)))
+        if ty is not None and not isinstance(ty, tuple):
+            ty = _struct(ty, ids=False, root_parent=False) if isinstance(ty, Expr) else ("non-expr", repr(ty))
+        comments = tuple(n.comments) if n.comments is not None else None
+        recs.append((type(n).__name__, tuple(args), ty, comments, repr(n._meta) if n._meta is not None else None, (holder is not None and pos[id(holder)], k, i)))
     return tuple(recs)
+
+
+def lax(recs):
+    out = []
+    for cls, args, ty, comments, meta, where in recs:
+        args = tuple(a for a in args if not (a[1] == "S" and a[2] == ("NoneType", "None")) and not (a[1] == "L" and not a[2]))
+        out.append((cls, args, ty, comments or None, None if meta in (None, "{}") else meta, where))
+    return tuple(out)
 
 
 def snap_diff(a, b):
@@ -166,12 +172,12 @@ def roundtrips(t):
     return out
 
 
-def evaluate(t, site_of, dialects, always_sql, inp, st, informational=False):
+def evaluate(t, site_of, dialects, always_sql, inp, st, informational=False, info_prefix=""):
     """evaluate the contract for tree t on all channels; violations appended to st['viol'] (or st['info'])."""
     sink = st["info"] if informational else st["viol"]
 
     def add(channel, what, site, detail):
-        key = f"c12:{channel}:{what}:{site}"
+        key = f"{info_prefix}c12:{channel}:{what}:{site}"
         if informational:
             sink[key] = sink.get(key, 0) + 1
         else:
@@ -185,8 +191,8 @@ def evaluate(t, site_of, dialects, always_sql, inp, st, informational=False):
     else:
         for b in check_payload(payload)[:1]:
             add("serde", "bad-parent-index", site_of(None), b)
-    lax_t = snapshot(t, strict=False)
-    strict_t = snapshot(t, strict=True)
+    strict_t = snapshot(t)
+    lax_t = lax(strict_t)
     sql_t = None
     for ch in CHANNELS:
         if ch not in rts:
@@ -208,13 +214,14 @@ def evaluate(t, site_of, dialects, always_sql, inp, st, informational=False):
             eq = None  # unhashable arg value: equality undefined for t itself
         if eq is False:
             add(ch, "not-equal", site_of(None), "round-tripped tree != original")
-        d = snap_diff(lax_t, snapshot(r, strict=False))
+        strict_r = snapshot(r)
+        d = snap_diff(lax_t, lax(strict_r))
         if d and not (d[0] == "args-differ" and eq is False):
             add(ch, d[0], site_of(d[1]), f"{d[0]} at node class {d[1]}")
         problems = wf(r, root_detached=True)
         if problems:
             add(ch, f"malformed-{problems[0][0]}", site_of(problems[0][2]), problems[0][1])
-        if always_sql or snapshot(r, strict=True) != strict_t:
+        if always_sql or strict_r != strict_t:
             if sql_t is None:
                 sql_t = sql_all(t, dialects)
             sql_r = sql_all(r, dialects)
@@ -288,32 +295,46 @@ def work_class(name):
     except Exception as e:
         skip(f"not-instantiable:{type(e).__name__}")
         return finish(st)
-    variants = []
     required = [k for k, v in cls.arg_types.items() if v]
-    variants.append(("all-required", {k: exp.Literal.string("r") for k in required}, False))
-    variants.append(("all-args-identifiers", {k: exp.to_identifier(f"i{j}") for j, k in enumerate(cls.arg_types)}, False))
-    variants.append(("empty", {}, False))
+
+    def filler(skip_key=None):
+        return {k: exp.Literal.string("r") for k in required if k != skip_key}
+
+    # (value kind, kwargs, decorate?, non-parser kind?)
+    variants = [
+        ("all-required", filler(), False, False),
+        ("all-required", filler(), True, False),
+        ("all-args-identifiers", {k: exp.to_identifier(f"i{j}") for j, k in enumerate(cls.arg_types)}, False, False),
+        ("all-args-identifiers", {k: exp.to_identifier(f"i{j}") for j, k in enumerate(cls.arg_types)}, True, False),
+        ("empty", {}, False, False),
+    ]
     for k in cls.arg_types:
         for kind, mk in VALUE_KINDS.items():
-            variants.append((kind, {k: mk()}, False))
+            variants.append((kind, dict(filler(k), **{k: mk()}), True, False))
         for kind, mk in NON_PARSER_KINDS.items():
-            variants.append((kind, {k: mk()}, True))
-    for kind, kwargs, informational in variants:
-        for decorate in (False, True):
+            variants.append((kind, dict(filler(k), **{k: mk()}), True, True))
+    for kind, kwargs, decorate, non_parser in variants:
+        try:
+            t = cls(**kwargs)
+        except Exception as e:
+            skip(f"ctor:{type(e).__name__}")
+            continue
+        if decorate:
             try:
-                t = cls(**{k: (v.copy() if isinstance(v, Expr) else ([x.copy() if isinstance(x, Expr) else x for x in v] if type(v) is list else v)) for k, v in kwargs.items()})
+                _decorate_instance(t)
             except Exception as e:
-                skip(f"ctor:{type(e).__name__}")
+                skip(f"decorate:{type(e).__name__}")
                 continue
-            if decorate:
-                try:
-                    _decorate_instance(t)
-                except Exception as e:
-                    skip(f"decorate:{type(e).__name__}")
-                    continue
-            inp = {"kind": "class", "class": name, "value": kind, "args": sorted(kwargs), "decorate": decorate}
-            evaluate(t, (lambda cls_name, kind=kind: kind), DIALECTS8[:3], False, inp, st, informational=informational)
-            st["nontrivial"] += 1
+        # a root that fails its own required-argument validation is not a syntax tree: informational only
+        try:
+            invalid = bool(t.error_messages())
+        except Exception:
+            invalid = True
+        if invalid:
+            st["invalid"] = st.get("invalid", 0) + 1
+        inp = {"kind": "class", "class": name, "value": kind, "args": sorted(kwargs), "decorate": decorate}
+        evaluate(t, (lambda cls_name, kind=kind: kind), DIALECTS8[:3], False, inp, st, informational=non_parser or invalid, info_prefix="invalid-tree:" if invalid and not non_parser else "")
+        st["nontrivial"] += 1
     return finish(st)
 
 
